@@ -355,8 +355,10 @@ func (su *Summarize) optIdx(mode Mode) (Cost, Cost, any) {
 	}
 	srcReq := OrderReq(su.ons, frac)
 	fixcost, varcost := Optimize(su.source, mode, srcReq)
+	// no index: a Select on the result must not be passed to the source,
+	// it would restrict the rows the min/max is taken over
 	return fixcost, varcost,
-		&summarizeApproach{strat: sumIdx, index: su.ons, req: srcReq}
+		&summarizeApproach{strat: sumIdx, req: srcReq}
 }
 
 func (su *Summarize) optMap(mode Mode, req Require) (Cost, Cost, any) {
